@@ -46,7 +46,7 @@ REQUIRED = dict(monitors=['online:variance-not-negative', 'alias:variance-equals
                          'alias:same-objects-two-accumulators', 'alias:one-buffer-overwritten',
                          'alias:several-accumulators-other-weights', 'values:tight-spread',
                          'weights-handed-over:as-they-are-numpy', 'weights-handed-over:plus-1e-300-numpy', 'values:agree-to-rounding',
-                         'values:zero-weight-samples-elsewhere-weighted-ones-identical'])
+                         'values:zero-weight-samples-elsewhere-weighted-ones-identical', 'mp:samples-a-hair-apart'])
 TOL = 1e-10
 EPS = float(np.finfo(float).eps)
 _state = {}
@@ -398,10 +398,19 @@ def make_mp_case(rng, index=0):
         N = Rn + 1
     else:
         N = int(rng.integers(Rn + 2, 25))
+    if int(index) % 3 == 2:
+        N = max(N, 2)
     mol = spec['gases'][0]['mol']
     T = rng.uniform(400, 2500, N)
     lm = rng.uniform(-8, -2, N)
     rad = spec['planet_radius'] * rng.uniform(0.9, 1.1, N)
+    hair = bool(int(index) % 3 == 2 and N >= 2)
+    if hair:
+        # a tightly converged posterior: every sample is its own point, but the points lie within a few parts in 1e10 of
+        # each other in every fitted parameter
+        rad = rad[0] + 1e-10 * np.arange(N) * rng.uniform(0.5, 2.0)
+        T = T[0] + 1e-9 * rng.permutation(N) * rng.uniform(0.5, 2.0)
+        lm = lm[0] + 1e-10 * rng.permutation(N) * rng.uniform(0.5, 2.0)
     samples = np.stack([rad, T, lm], axis=1) if N else np.zeros((0, 3))
     w, wcls = draw_weights(rng, N)
     derived = [[], ['mu'], ['mu', 'logg', 'avg_T']][rng.integers(0, 3)]
@@ -410,7 +419,7 @@ def make_mp_case(rng, index=0):
     frac = float(rng.choice([1.0, 1.0, 0.5]))
     pyseed = int(rng.integers(0, 2 ** 31))
     return {'R': Rn, 'spec': spec, 'N': N, 'samples': samples, 'weights': w, 'wcls': wcls, 'derived': derived,
-            'frac': frac, 'mol': mol, 'pyseed': pyseed, 'passthrough': bool(int(index) % 3 == 1)}
+            'frac': frac, 'mol': mol, 'pyseed': pyseed, 'passthrough': bool(int(index) % 3 == 1), 'hair': hair}
 
 
 def rank_main(seed, workload, shard, index):
@@ -526,6 +535,8 @@ def wl_mp(ctx, rng):
         ctx.observe('N<R')
     ctx.feature(R=Rn, N=N, weights=case['wcls'], derived=case['derived'], frac=case['frac'], passthrough=case['passthrough'])
     ctx.observe('mp:binner-' + ('pass-through' if case['passthrough'] else 'flux'))
+    if case['hair']:
+        ctx.observe('mp:samples-a-hair-apart')
     ranks, report = lib_c18.run_ranks(Rn, args, ctx.scratch)
     single, srep = lib_c18.run_ranks(1, args, ctx.scratch)
     ctx.event('mp-run')
